@@ -1912,6 +1912,10 @@ def serve():
     cap = open(cap_path, "w+")
     os.dup2(cap.fileno(), 1)
     sys.stdout = os.fdopen(1, "w") if PY2 else open(1, "w", closefd=False)
+    if os.environ.get("VF_ROLE") == "ref" and hasattr(sys, "set_int_max_str_digits"):
+        # a reference interpreter never imports xdis: its own canonical forms may print integers of any size.
+        # (host workers keep the default: the limit is process-wide state that C18 watches)
+        sys.set_int_max_str_digits(0)
     extra = os.environ.get("VF_WORKER_EXTRA")
     if extra:
         for m in extra.split(","):
